@@ -797,6 +797,8 @@ def watershed(spectrum, ihmax):
     The extension reads the array buffer as C-ordered float32 with shape (nf, nd).
 
     """
+    if ihmax < 1:
+        raise ValueError(f"ihmax must be a positive number of levels, got {ihmax}")
     return specpart.partition(np.ascontiguousarray(spectrum, dtype=np.float32), ihmax)
 
 
